@@ -329,15 +329,15 @@ func c10r7GenGaugeSites() (string, error) {
 	s += "structure Lit where\n  neg : Bool\n  atom : String\n  deriving DecidableEq, Repr\n"
 	s += "inductive Owner where\n  | proxy | listener | host | cluster | other\n  deriving DecidableEq, Repr\n"
 	s += "inductive Op where\n  | inc | dec | update\n  deriving DecidableEq, Repr\n"
-	s += "structure Move where\n  file : String\n  fn : String\n  owner : Owner\n  metric : String\n  op : Op\n  amount : String\n  conds : List Lit\n  deriving DecidableEq, Repr\n"
+	s += "structure Move where\n  file : String\n  fn : String\n  owner : Owner\n  metric : String\n  op : Op\n  amount : String\n  gauge : Bool\n  conds : List Lit\n  deriving DecidableEq, Repr\n"
 	s += "structure Call where\n  file : String\n  caller : String\n  callee : String\n  conds : List Lit\n  deriving DecidableEq, Repr\n"
-	s += "/-- every counter / gauge movement, in source order per file -/\ndef moves : List Move := [\n"
+	s += "/-- every counter / gauge movement, in source order per file (`gauge`: the metric's name ends in `Active`) -/\ndef moves : List Move := [\n"
 	for i, m := range moves {
 		sep := ","
 		if i == len(moves)-1 {
 			sep = ""
 		}
-		s += fmt.Sprintf("  ⟨%q, %q, .%s, %q, .%s, %q, %s⟩%s\n", m.file, m.fn, m.owner, m.metric, m.op, m.amount, c10r7Lits(m.conds), sep)
+		s += fmt.Sprintf("  ⟨%q, %q, .%s, %q, .%s, %q, %v, %s⟩%s\n", m.file, m.fn, m.owner, m.metric, m.op, m.amount, strings.HasSuffix(m.metric, "Active"), c10r7Lits(m.conds), sep)
 	}
 	s += "]\n"
 	s += "/-- call sites of newActiveStream / requestMetrics / cleanStream / DownstreamUpdateRequestCode -/\ndef calls : List Call := [\n"
